@@ -274,7 +274,7 @@ class PlanSuite(PipeSuite):
         s = str(seed)
         if sspec.get("meta"):
             n = {"quick": "200", "thorough": "6000"}.get(tier, "1500")
-            g = [("metamorphic pairs (renamed systems, injectively relabelled resources across types/dynamic ids, permuted+duplicated access lists)",
+            g = [("metamorphic pairs (renamed systems, injectively relabelled resources across types/dynamic ids, permuted+duplicated access lists, unreferenced names erased or anonymous systems named, a pool of another size attached)",
                   ["--gen", "meta", "--count", n, "--seed", s], {}),
                  ("metamorphic pairs, crate built without the `parallel` feature", ["--gen", "meta", "--count", n, "--seed", s], {"parallel": False}),
                  ("random programs, crate built without the `parallel` feature", ["--gen", "random", "--count", str(int(n) // 2), "--seed", s], {"parallel": False})]
